@@ -79,9 +79,9 @@ for e in ENGINES:
     if e['name'] in ('msym', 'native-driver'):
         e['serves_properties'] = sorted(set(e['serves_properties']) | {'C05'})
 
-check('C04', 'symbolic execution of the MIR of BranchRulesConfig::apply_branch_rules / BranchRules::* / hash_int_function with the branch name, flags and hash as solver variables, plus Kani/CBMC on BranchRule::matches over arbitrary ASCII bytes',
-      'PARTIAL. Decided: the rule-resolution half of the statement - explicit flags else first matching rule (exact, `prefix/*` only under `prefix/`, `*`), number = explicit rule number, else first all-digit path segment after the prefix (u32), else none (hash fallback) - for five rule sets incl. the GitFlow defaults, every branch name up to a length bound and structured long names; and the branch-hash contract (<= length digits, no leading zero, deterministic, accepted as u32 for every length 1..10; SipHash as an uninterpreted function). Kani proves matches() on all <= 5-byte ASCII names on the compiled code. NOT decided: the composed tag x distance x dirty -> patch/post/dev law, which runs through Tera rendering and a RON hand-over between two pipeline passes (no MIR in the crate).',
-      'trusted: python std models, uninterpreted-hash model (a real witness is searched natively before reporting), z3, CBMC. Known finding recorded: hash length 10 can exceed u32.',
+check('C04', 'symbolic execution of the MIR of the flow pipeline (FlowArgs::*, BranchRules::*, ZervDraft::to_zerv, ResolvedArgs::resolve, apply_component_processing, hash_int) with tag numbers, distance, dirty, branch characters, flags and the branch hash as solver variables; Tera is modelled for the template family flow builds; Kani/CBMC on BranchRule::matches over arbitrary ASCII bytes',
+      'Rule resolution (explicit flags else first matching rule: exact, `prefix/*` only under `prefix/`, `*`; number = rule number, else first all-digit path segment after the prefix, else hash) for six rule sets incl. the GitFlow defaults and every branch name up to a length bound; the branch-hash contract (<= length digits, no leading zero, deterministic, accepted as u32 for lengths 1..10; SipHash uninterpreted); and the composed law tag x rule x distance x dirty x flags -> patch / label / number / post / dev, decided by running both passes of the flow pipeline from MIR on symbolic draft variables and comparing the resulting variables with the statement\'s law. Kani proves matches() on all <= 5-byte ASCII names on the compiled code. Every reported flow result is replayed through the real run_flow_pipeline (real Tera, real RON) natively.',
+      'trusted: the Tera subset model (msym/models_tera.py; boundary = Template::render_string), the assumption that the second pass re-reads the same source, python std models, uninterpreted-hash model (a real witness is searched natively), z3, CBMC. One-digit version numbers in the composed law; wall clock before 2106. Known finding recorded: hash length 10 can exceed u32.',
       'DESIGN.md §7 C04', engine='msym+kani')
 for e in ENGINES:
     if e['name'] in ('msym', 'native-driver', 'kani'):
@@ -110,3 +110,12 @@ check('C13', 'symbolic execution of the MIR of panic-prone library kernels (byte
 for e in ENGINES:
     if e['name'] in ('msym', 'native-driver'):
         e['serves_properties'] = sorted(set(e['serves_properties']) | {'C13'})
+
+
+check('C03', 'symbolic execution of the MIR of both passes of the flow pipeline and of the SemVer / PEP 440 renderers with tag numbers, distance, dirty, branch and flags as solver variables; z3 compares the rendered version with X.Y.Z and X.Y.(Z+1) through independent SemVer-precedence / PEP 440-key comparators',
+      'For final-release tags X.Y.Z and every combination of distance (absent / 0..9), dirty (absent / true / false), branch (absent, exact, prefix and free characters), rule set, post mode, label/number/--dirty/--no-dirty flags, hash length and standard schema preset in the menu: a clean checkout at the tag yields exactly X.Y.Z; every other state yields V with X.Y.Z < V < X.Y.(Z+1) in SemVer precedence and in PEP 440 order (oracles written from the specs, applied to the symbolic records the real renderers return); in commit post-mode two symbolic runs with d < d\' give strictly increasing versions. Reported results are replayed through the real run_flow_pipeline natively and judged by string-level comparators.',
+      'trusted: Tera subset model, second pass = same draft variables, python std models, z3. Bounds: one-digit version numbers/distances (quick X.Y fixed), schema/branch/rule menus, wall clock before 2106-02-07 (dev timestamp is a u32). "Along first-parent chains of real git histories" is reduced to the distance/dirty abstraction (git is C02). Pre-release tags are not decided.',
+      'DESIGN.md §7 C03')
+for e in ENGINES:
+    if e['name'] in ('msym', 'native-driver'):
+        e['serves_properties'] = sorted(set(e['serves_properties']) | {'C03'})
